@@ -42,137 +42,217 @@ theorem mem_appsOn {st : Store} {sid a : Nat} : a ∈ st.appsOn sid ↔ HasKey s
   · rintro ⟨r, hr, h1, h2⟩
     exact ⟨r, List.mem_filter.mpr ⟨hr, by simpa using h1⟩, h2⟩
 
-/-- the three groups of writes of one server -/
-def initDels (_c' : Cell) (st : Store) (sid : Nat) (s : Srv) : List Write :=
-  ((st.appsOn sid).filter (fun a => !(sortNat s.apps).contains a)).map (fun a => Write.delRec sid a)
-def initPuts (c' : Cell) (st : Store) (sid : Nat) (s : Srv) : List Write :=
-  ((sortNat s.apps).filter (fun a => !(st.appsOn sid).contains a)).filterMap (fun aid =>
-    (c'.app? aid).map (fun a => let d := placementData c' a; Write.putRec sid aid d.1 d.2.1 d.2.2))
+/-- Keys under a list of writes that only delete records or create parent nodes. -/
+theorem hasKey_applyAll_delmk (now : Int) :
+    ∀ (ws : List Write) (st : Store) (s a : Nat),
+      (∀ w ∈ ws, (∃ s' a', w = Write.delRec s' a') ∨ (∃ s', w = Write.mkNode s')) →
+      (HasKey (st.applyAll now ws) s a ↔ HasKey st s a ∧ Write.delRec s a ∉ ws) := by
+  intro ws
+  induction ws with
+  | nil => intro st s a _; simp [applyAll_nil]
+  | cons w ws ih =>
+    intro st s a hall
+    rw [applyAll_cons, ih _ s a (fun w' hw' => hall w' (List.mem_cons_of_mem _ hw')), hasKey_apply]
+    rcases hall w List.mem_cons_self with ⟨s', a', rfl⟩ | ⟨s', rfl⟩
+    · simp only [keyAfter, List.mem_cons, not_or]
+      constructor
+      · rintro ⟨⟨h1, h2⟩, h3⟩
+        refine ⟨h1, ?_, h3⟩
+        intro e; injection e with e1 e2; exact h2 ⟨e1, e2⟩
+      · rintro ⟨h1, h2, h3⟩
+        refine ⟨⟨h1, ?_⟩, h3⟩
+        rintro ⟨rfl, rfl⟩; exact h2 rfl
+    · simp only [keyAfter, List.mem_cons, not_or]
+      constructor
+      · rintro ⟨h1, h3⟩; exact ⟨h1, (fun e => nomatch e), h3⟩
+      · rintro ⟨h1, _, h3⟩; exact ⟨h1, h3⟩
 
-theorem initServer_eq {c' : Cell} {st : Store} {sid : Nat} {s : Srv} (hs : c'.srv? sid = some s) :
-    initServer c' st sid = [Write.mkNode sid] ++ initDels c' st sid s ++ initPuts c' st sid s := by
-  simp [initServer, hs, initDels, initPuts]
+/-- Keys under a list of writes without deletes. -/
+theorem hasKey_applyAll_puts (now : Int) (ws : List Write) (st : Store) (s a : Nat)
+    (h : ∀ w ∈ ws, (∀ s' a', w ≠ .delRec s' a') ∧ (∀ s', w ≠ .delNode s')) :
+    HasKey (st.applyAll now ws) s a ↔ HasKey st s a ∨ ∃ i n e, Write.putRec s a i n e ∈ ws :=
+  ⟨hasKey_applyAll_origin now ws st s a, hasKey_applyAll_mono now ws st s a h⟩
 
-theorem initServer_about (c' : Cell) (st : Store) (sid : Nat) : ∀ w ∈ initServer c' st sid, About sid w := by
+/-! ### the two loops of `init_schedule` -/
+
+def passA (c' : Cell) (st : Store) : List Write := c'.tree.leaves.flatMap (initDelsOf c' st)
+def passB (c' : Cell) (st : Store) : List Write := c'.tree.leaves.flatMap (initPutsOf c' st)
+
+theorem initWrites_eq (c' : Cell) (st : Store) :
+    initWrites c' st = passA c' st ++ (passB c' st ++ [Write.saveBlob]) := by
+  simp [initWrites, passA, passB, List.append_assoc]
+
+theorem passA_shape (c' : Cell) (st : Store) :
+    ∀ w ∈ passA c' st, (∃ s' a', w = Write.delRec s' a') ∨ (∃ s', w = Write.mkNode s') := by
   intro w hw
-  unfold initServer at hw
+  simp only [passA, List.mem_flatMap] at hw
+  obtain ⟨sid, _, hw⟩ := hw
+  unfold initDelsOf at hw
   split at hw
   · cases hw
-  · simp only [List.mem_append, List.mem_singleton, List.mem_map, List.mem_filterMap] at hw
-    rcases hw with (rfl | ⟨a, _, rfl⟩) | ⟨aid, _, hw⟩
-    · rfl
-    · rfl
+  · simp only [List.mem_append, List.mem_singleton, List.mem_map] at hw
+    rcases hw with rfl | ⟨a, _, rfl⟩
+    · exact Or.inr ⟨_, rfl⟩
+    · exact Or.inl ⟨_, _, rfl⟩
+
+theorem mem_passA_del {c' : Cell} {st : Store} {s a : Nat} :
+    Write.delRec s a ∈ passA c' st ↔
+      s ∈ c'.tree.leaves ∧ ∃ sv, c'.srv? s = some sv ∧ HasKey st s a ∧ a ∉ sv.apps := by
+  simp only [passA, List.mem_flatMap]
+  constructor
+  · rintro ⟨sid, hsid, hw⟩
+    unfold initDelsOf at hw
+    split at hw
+    · cases hw
+    · rename_i sv hsv
+      simp only [List.mem_append, List.mem_singleton, List.mem_map, List.mem_filter] at hw
+      rcases hw with hw | ⟨x, ⟨hx, hnot⟩, heq⟩
+      · cases hw
+      · injection heq with e1 e2
+        subst e1 e2
+        refine ⟨hsid, sv, hsv, mem_appsOn.mp hx, ?_⟩
+        simp only [Bool.not_eq_eq_eq_not, Bool.not_true, List.contains_eq_mem, decide_eq_false_iff_not] at hnot
+        exact fun h => hnot (mem_sortNat.mpr h)
+  · rintro ⟨hsid, sv, hsv, hk, hna⟩
+    refine ⟨s, hsid, ?_⟩
+    unfold initDelsOf
+    rw [hsv]
+    simp only [List.mem_append, List.mem_singleton, List.mem_map, List.mem_filter]
+    right
+    refine ⟨a, ⟨mem_appsOn.mpr hk, ?_⟩, rfl⟩
+    simp only [Bool.not_eq_eq_eq_not, Bool.not_true, List.contains_eq_mem, decide_eq_false_iff_not]
+    exact fun h => hna (mem_sortNat.mp h)
+
+/-- what a write of the second loop is -/
+theorem mem_passB {c' : Cell} {st : Store} {w : Write} (hw : w ∈ passB c' st) :
+    ∃ sid sv aid x, sid ∈ c'.tree.leaves ∧ c'.srv? sid = some sv ∧ aid ∈ sv.apps ∧ c'.app? aid = some x ∧
+      w = .putRec sid aid (placementData c' x).1 (placementData c' x).2.1 (placementData c' x).2.2 := by
+  simp only [passB, List.mem_flatMap] at hw
+  obtain ⟨sid, hsid, hw⟩ := hw
+  unfold initPutsOf at hw
+  split at hw
+  · cases hw
+  · rename_i sv hsv
+    simp only [List.mem_append, List.mem_filterMap, List.mem_filter] at hw
+    rcases hw with ⟨aid, ⟨hin, _⟩, hw⟩ | ⟨aid, ⟨hin, _⟩, hw⟩
     · cases hc : c'.app? aid with
       | none => simp [hc] at hw
-      | some a => simp only [hc, Option.map_some, Option.some.injEq] at hw; subst hw; rfl
+      | some x =>
+        simp only [hc, Option.map_some, Option.some.injEq] at hw
+        exact ⟨sid, sv, aid, x, hsid, hsv, mem_sortNat.mp hin, hc, hw.symm⟩
+    · unfold republish at hw
+      split at hw
+      · rename_i x r hx hr
+        simp only at hw
+        split at hw
+        · cases hw
+        · simp only [Option.some.injEq] at hw
+          exact ⟨sid, sv, aid, x, hsid, hsv, mem_sortNat.mp hin, hx, hw.symm⟩
+      · cases hw
 
-/-- After the writes of server `sid` (computed on `st`) have been applied to a store with the same
-    records under `sid`, the records under `sid` are exactly `s.apps`. -/
-theorem initServer_keys (now : Int) (c' : Cell) (st st1 : Store) (sid : Nat) (s : Srv)
-    (hs : c'.srv? sid = some s)
-    (hsame : ∀ a, HasKey st1 sid a ↔ HasKey st sid a)
-    (happs : ∀ a ∈ s.apps, (c'.app? a).isSome) (a : Nat) :
-    HasKey (st1.applyAll now (initServer c' st sid)) sid a ↔ a ∈ s.apps := by
-  rw [initServer_eq hs, applyAll_append, applyAll_append]
-  -- puts: no deletes among them
-  have hputs_nodel : ∀ w ∈ initPuts c' st sid s, (∀ s' a', w ≠ .delRec s' a') ∧ (∀ s', w ≠ .delNode s') := by
-    intro w hw
-    simp only [initPuts, List.mem_filterMap] at hw
-    obtain ⟨aid, _, hw⟩ := hw
-    cases hc : c'.app? aid with
-    | none => simp [hc] at hw
-    | some x =>
-      simp only [hc, Option.map_some, Option.some.injEq] at hw; subst hw
-      exact ⟨fun _ _ e => (nomatch e), fun _ e => (nomatch e)⟩
-  have hdels : ∀ w ∈ initDels c' st sid s, ∃ s' a', w = Write.delRec s' a' := by
-    intro w hw
-    simp only [initDels, List.mem_map] at hw
-    obtain ⟨x, _, rfl⟩ := hw
-    exact ⟨_, _, rfl⟩
-  have hmk : ∀ x y, HasKey (st1.applyAll now [Write.mkNode sid]) x y ↔ HasKey st1 x y := by
-    intro x y
-    rw [applyAll_cons, applyAll_nil, hasKey_apply]; rfl
-  -- keys after the deletes
-  have hafterdel : HasKey ((st1.applyAll now [Write.mkNode sid]).applyAll now (initDels c' st sid s)) sid a ↔
-      HasKey st sid a ∧ a ∈ s.apps := by
-    rw [hasKey_applyAll_dels now _ _ sid a hdels, hmk, hsame]
-    simp only [initDels, List.mem_map, List.mem_filter, not_exists, not_and]
-    constructor
-    · rintro ⟨hk, hnd⟩
-      refine ⟨hk, ?_⟩
-      apply Classical.byContradiction
-      intro hna
-      apply hnd a ⟨mem_appsOn.mpr hk, ?_⟩ rfl
-      simp only [Bool.not_eq_eq_eq_not, Bool.not_true, List.contains_eq_mem, decide_eq_false_iff_not]
-      rw [mem_sortNat]; exact hna
-    · rintro ⟨hk, ha⟩
-      refine ⟨hk, ?_⟩
-      rintro x ⟨_, hx⟩ heq
-      injection heq with _ h2
-      subst h2
-      simp only [Bool.not_eq_eq_eq_not, Bool.not_true, List.contains_eq_mem, decide_eq_false_iff_not] at hx
-      exact hx (mem_sortNat.mpr ha)
+theorem passB_nodel (c' : Cell) (st : Store) :
+    ∀ w ∈ passB c' st ++ [Write.saveBlob], (∀ s' a', w ≠ .delRec s' a') ∧ (∀ s', w ≠ .delNode s') := by
+  intro w hw
+  rcases List.mem_append.mp hw with hw | hw
+  · obtain ⟨_, _, _, _, _, _, _, _, rfl⟩ := mem_passB hw
+    exact ⟨fun _ _ e => (nomatch e), fun _ e => (nomatch e)⟩
+  · simp only [List.mem_singleton] at hw; subst hw
+    exact ⟨fun _ _ e => (nomatch e), fun _ e => (nomatch e)⟩
+
+/-- a missing record of a placed instance is created by the second loop -/
+theorem passB_puts_missing {c' : Cell} {st : Store} {sid aid : Nat} {sv : Srv} {x : App}
+    (hsid : sid ∈ c'.tree.leaves) (hsv : c'.srv? sid = some sv) (ha : aid ∈ sv.apps)
+    (hx : c'.app? aid = some x) (hk : ¬ HasKey st sid aid) :
+    Write.putRec sid aid (placementData c' x).1 (placementData c' x).2.1 (placementData c' x).2.2 ∈ passB c' st := by
+  simp only [passB, List.mem_flatMap]
+  refine ⟨sid, hsid, ?_⟩
+  unfold initPutsOf
+  rw [hsv]
+  simp only [List.mem_append, List.mem_filterMap, List.mem_filter]
+  left
+  refine ⟨aid, ⟨mem_sortNat.mpr ha, ?_⟩, by simp [hx]⟩
+  simp only [Bool.not_eq_eq_eq_not, Bool.not_true, List.contains_eq_mem, decide_eq_false_iff_not]
+  rw [mem_appsOn]; exact hk
+
+/-- Keys after the complete first loop. -/
+theorem keys_after_passA (now : Int) (c' : Cell) (st : Store) (s a : Nat) :
+    HasKey (st.applyAll now (passA c' st)) s a ↔
+      HasKey st s a ∧ ¬(s ∈ c'.tree.leaves ∧ ∃ sv, c'.srv? s = some sv ∧ a ∉ sv.apps) := by
+  rw [hasKey_applyAll_delmk now _ st s a (passA_shape c' st), mem_passA_del]
   constructor
-  · intro h
-    rcases hasKey_applyAll_origin now _ _ sid a h with h1 | ⟨i, n, e, hm⟩
-    · exact (hafterdel.mp h1).2
-    · simp only [initPuts, List.mem_filterMap, List.mem_filter] at hm
-      obtain ⟨aid, ⟨hin, _⟩, hm⟩ := hm
-      cases hc : c'.app? aid with
-      | none => simp [hc] at hm
-      | some x =>
-        simp only [hc, Option.map_some, Option.some.injEq] at hm
-        injection hm with _ h2
-        subst h2
-        exact mem_sortNat.mp hin
-  · intro ha
-    apply hasKey_applyAll_mono now _ _ sid a hputs_nodel
-    by_cases hk : HasKey st sid a
-    · left; exact hafterdel.mpr ⟨hk, ha⟩
-    · right
-      have hsome := happs a ha
-      cases hc : c'.app? a with
-      | none => simp [hc] at hsome
-      | some x =>
-        refine ⟨(placementData c' x).1, (placementData c' x).2.1, (placementData c' x).2.2, ?_⟩
-        simp only [initPuts, List.mem_filterMap, List.mem_filter]
-        refine ⟨a, ⟨mem_sortNat.mpr ha, ?_⟩, by simp [hc]⟩
-        simp only [Bool.not_eq_eq_eq_not, Bool.not_true, List.contains_eq_mem, decide_eq_false_iff_not]
-        rw [mem_appsOn]; exact hk
+  · rintro ⟨hk, hnd⟩
+    refine ⟨hk, ?_⟩
+    rintro ⟨hs, sv, hsv, hna⟩
+    exact hnd ⟨hs, sv, hsv, hk, hna⟩
+  · rintro ⟨hk, hnd⟩
+    refine ⟨hk, ?_⟩
+    rintro ⟨hs, sv, hsv, _, hna⟩
+    exact hnd ⟨hs, sv, hsv, hna⟩
 
-/-- The loop over `cell.members()`. -/
-theorem initLoop_keys (now : Int) (c' : Cell) (st : Store)
-    (happs : ∀ sid s, c'.srv? sid = some s → ∀ a ∈ s.apps, (c'.app? a).isSome) :
-    ∀ (l : List Nat) (st1 : Store), l.Nodup → (∀ sid ∈ l, (c'.srv? sid).isSome) →
-      (∀ sid ∈ l, ∀ a, HasKey st1 sid a ↔ HasKey st sid a) →
-      ∀ srv app, HasKey (st1.applyAll now (l.flatMap (initServer c' st))) srv app ↔
-        (if srv ∈ l then ∃ s, c'.srv? srv = some s ∧ app ∈ s.apps else HasKey st1 srv app) := by
-  intro l
-  induction l with
-  | nil => intro st1 _ _ _ srv app; simp [applyAll_nil]
-  | cons t l ih =>
-    intro st1 hnd hsrv hsame srv app
-    rw [List.flatMap_cons, applyAll_append]
-    have hnd' := List.nodup_cons.mp hnd
-    obtain ⟨s, hs⟩ := Option.isSome_iff_exists.mp (hsrv t List.mem_cons_self)
-    have hother : ∀ x, x ≠ t → ∀ a, HasKey (st1.applyAll now (initServer c' st t)) x a ↔ HasKey st1 x a :=
-      fun x hx a => hasKey_applyAll_other now t x a hx _ _ (initServer_about c' st t)
-    rw [ih _ hnd'.2 (fun sid h => hsrv sid (List.mem_cons_of_mem _ h))]
-    · by_cases h1 : srv ∈ l
-      · simp [h1]
-      · simp only [h1, ↓reduceIte, List.mem_cons, or_false]
-        by_cases h2 : srv = t
-        · subst h2
-          simp only [↓reduceIte]
-          rw [initServer_keys now c' st st1 srv s hs (hsame srv List.mem_cons_self) (happs srv s hs)]
-          constructor
-          · intro h; exact ⟨s, hs, h⟩
-          · rintro ⟨s', hs', h⟩; rw [hs] at hs'; cases hs'; exact h
-        · simp only [h2, ↓reduceIte]
-          exact hother srv h2 app
-    · intro sid hsid a
-      have : sid ≠ t := fun e => hnd'.1 (e ▸ hsid)
-      rw [hother sid this a]
-      exact hsame sid (List.mem_cons_of_mem _ hsid) a
+/-- Keys after `init_schedule`'s publication: under a member of the cell exactly `server.apps`;
+    elsewhere what was there. -/
+theorem keys_after_init (now : Int) (c' : Cell) (st : Store)
+    (hloadedSrv : ∀ sid ∈ c'.tree.leaves, (c'.srv? sid).isSome)
+    (happs : ∀ sid sv, c'.srv? sid = some sv → ∀ a ∈ sv.apps, (c'.app? a).isSome) (s a : Nat) :
+    HasKey (st.applyAll now (initWrites c' st)) s a ↔
+      (if s ∈ c'.tree.leaves then ∃ sv, c'.srv? s = some sv ∧ a ∈ sv.apps else HasKey st s a) := by
+  rw [initWrites_eq, applyAll_append, hasKey_applyAll_puts now _ _ s a (passB_nodel c' st), keys_after_passA]
+  by_cases hs : s ∈ c'.tree.leaves
+  · simp only [hs, true_and, ↓reduceIte]
+    obtain ⟨sv, hsv⟩ := Option.isSome_iff_exists.mp (hloadedSrv s hs)
+    constructor
+    · rintro (⟨_, hnd⟩ | ⟨i, n, e, hm⟩)
+      · refine ⟨sv, hsv, ?_⟩
+        apply Classical.byContradiction
+        intro hna
+        exact hnd ⟨sv, hsv, hna⟩
+      · rcases List.mem_append.mp hm with hm | hm
+        · obtain ⟨sid, sv', aid, x, _, hsv', ha, _, heq⟩ := mem_passB hm
+          injection heq with e1 e2
+          subst e1 e2
+          exact ⟨sv', hsv', ha⟩
+        · simp at hm
+    · rintro ⟨sv', hsv', ha⟩
+      by_cases hk : HasKey st s a
+      · left
+        refine ⟨hk, ?_⟩
+        rintro ⟨sv'', hsv'', hna⟩
+        rw [hsv'] at hsv''; cases hsv''; exact hna ha
+      · right
+        obtain ⟨x, hx⟩ := Option.isSome_iff_exists.mp (happs s sv' hsv' a ha)
+        exact ⟨_, _, _, List.mem_append_left _ (passB_puts_missing hs hsv' ha hx hk)⟩
+  · simp only [hs, false_and, not_false_eq_true, and_true, ↓reduceIte]
+    constructor
+    · rintro (hk | ⟨i, n, e, hm⟩)
+      · exact hk
+      · rcases List.mem_append.mp hm with hm | hm
+        · obtain ⟨sid, _, aid, _, hsid, _, _, _, heq⟩ := mem_passB hm
+          injection heq with e1 e2
+          subst e1
+          exact absurd hsid hs
+        · simp at hm
+    · exact Or.inl
+
+/-- What `init_schedule` needs of the cell after its start-up cycle; scheduler invariants
+    (engine `sched`: `C01_views` / `InvCap`; every placed instance is on a server of the tree after
+    `_fix_invalid_placements`). -/
+structure CellViews (c : Cell) : Prop where
+  leavesLoaded : ∀ sid ∈ c.tree.leaves, (c.srv? sid).isSome
+  views : ∀ sid s, c.srv? sid = some s → ∀ aid, aid ∈ s.apps ↔ placedOn c aid sid
+  placedInTree : ∀ aid sid, placedOn c aid sid → sid ∈ c.tree.leaves
+
+theorem CellViews.apps {c : Cell} (hc : CellViews c) :
+    ∀ sid sv, c.srv? sid = some sv → ∀ a ∈ sv.apps, (c.app? a).isSome := by
+  intro sid s hs a ha
+  obtain ⟨x, hx, _⟩ := (hc.views sid s hs a).mp ha
+  simp [hx]
+
+theorem noDouble_iff_keys {st : Store} :
+    NoDouble st ↔ ∀ s₁ s₂ a, HasKey st s₁ a → HasKey st s₂ a → s₁ = s₂ := by
+  constructor
+  · rintro h s₁ s₂ a ⟨r₁, h₁, rfl, rfl⟩ ⟨r₂, h₂, rfl, e⟩
+    exact h r₁ h₁ r₂ h₂ e.symm
+  · intro h r₁ h₁ r₂ h₂ e
+    exact h r₁.srv r₂.srv r₁.app ⟨r₁, h₁, rfl, rfl⟩ ⟨r₂, h₂, rfl, e.symm⟩
 
 end TmVerif.Master
